@@ -19,6 +19,7 @@
 (* reset when a declaration is left.  L1: Verdict(c), per container.       *)
 (* Deviations: LeakWalkState (cur survives the end of a function: a        *)
 (* package-level `var g = T{}` after the constructor is accepted),         *)
+(* LastCtorLineOnly (of several @constructor lines only the last counts),   *)
 (* BareNameCache (annotation status cached per bare type name: d.T / o.T), *)
 (* GroupDocLeaks (T's doc reaches the undocumented next spec of its group), *)
 (* PtrAliasIsValue (`var v TP` with type TP = *T reported as CTOR03),      *)
@@ -45,7 +46,7 @@ Nests  == {"none", "if", "else", "for", "range", "switch", "select", "funclit", 
 Spells == {"direct", "alias", "alias3", "chain", "ptralias", "rename", "paren"}   \* ptralias: type TP = *T, only for `var v TP` (a nil pointer, no instance)
 
 \* csp = which accepted spelling of the constructor list is used (1..5), semantically irrelevant
-Anns == [ctors : {<<>>, <<"NewT">>, <<"NewT", "MakeT">>}, csp : 1..5, imm : BOOLEAN]
+Anns == [ctors : {<<>>, <<"NewT">>, <<"NewT", "MakeT">>}, csp : 1..6, imm : BOOLEAN]     \* csp 6: the two names on two separate @constructor lines
 
 Range(s) == {s[i] : i \in 1..Len(s)}
 
@@ -154,7 +155,8 @@ VisitVerdict(c) ==
                      ELSE IF OnT2(c.stmt) /\ ~("CtorAnyType" \in Deviations) THEN {"NewT2"} ELSE Range(prog.ann.ctors)
       \* when package u has a function NewT / MakeT it also declares a type of its own called T with those constructors (TwinCtors)
       twinExempt == "CtorByBareName" \in Deviations /\ prog.pkg = "u" /\ cur \in TwinCtors
-      exempt == (ownPkg /\ cur \in ctorsOfType) \/ twinExempt
+      \* LastCtorLineOnly: with the names on two @constructor lines (csp 6) only the last line's name (MakeT) is registered
+      exempt == ((ownPkg /\ cur \in ctorsOfType) \/ twinExempt) /\ ~("LastCtorLineOnly" \in Deviations /\ prog.ann.csp = 6 /\ cur = "NewT" /\ ~OnT2(c.stmt))
       \* PtrAliasIsValue: a variable whose type is an alias of a pointer type is taken for an instance
       code2 == IF "PtrAliasIsValue" \in Deviations /\ c.stmt = "varPtr" /\ c.sp = "ptralias" THEN "CTOR03"
                ELSE IF "GroupDocLeaks" \in Deviations /\ c.stmt = "litTG" THEN "CTOR01" ELSE code
